@@ -159,17 +159,11 @@ func makeC14GenMix(r *Run, mix int) func(d *draws, m *btModel, i int) btOp {
 
 func runC14(r *Run) {
 	cfg := r.T.S("cfg")
-	if cfg.Intn(4) == 3 || (r.Index >= 3 && r.Index < 12) {
-		c14Concurrent(r, cfg)
-		return
-	}
-	engine := pickEngine(r, cfg)
-	nOps := 1 + cfg.Intn(40)
-	clk := NewClock(1_700_000_000_000_000, 1_700_000_000_000_000_000)
 	if (r.Index >= 12 && r.Index < 15) || (r.Tier == "thorough" && r.Index%4000 < 3) {
 		// one run per engine and batch: administration of a table holding thousands of rows
 		// (more than any internal batch size), state compared after every request
-		engine = []string{engBtree, engLdbMem, engLdbDisk}[r.Index%3]
+		engine := []string{engBtree, engLdbMem, engLdbDisk}[r.Index%3]
+		clk := NewClock(1_700_000_000_000_000, 1_700_000_000_000_000_000)
 		const tbl = "projects/p/instances/i1/tables/t"
 		script := []btOp{{Kind: "CreateTable", Parent: "projects/p/instances/i1", TableID: "t", Fams: map[string]*btapb.GcRule{"f1": nil, "f2": nil}}}
 		nRows := 2100 + cfg.Intn(900)
@@ -187,14 +181,32 @@ func runC14(r *Run) {
 		drop := func(f string) btOp {
 			return btOp{Kind: "Modify", Table: tbl, Mods: []*btapb.ModifyColumnFamiliesRequest_Modification{{Id: f, Mod: &btapb.ModifyColumnFamiliesRequest_Modification_Drop{Drop: true}}}}
 		}
-		script = append(script, btOp{Kind: "DropPrefix", Table: tbl, Prefix: "b1"}, btOp{Kind: "ReadAll", Table: tbl}, drop("f1"), btOp{Kind: "ReadAll", Table: tbl},
-			btOp{Kind: "DropPrefix", Table: tbl, Prefix: "b0"}, btOp{Kind: "ReadAll", Table: tbl}, btOp{Kind: "DropAll", Table: tbl}, btOp{Kind: "ReadAll", Table: tbl})
+		// drop f2 rewrites every third row; "b0" matches exactly 1000 rows, "b" the 1100-2000 that
+		// remain; then 1200 rows that hold nothing but f1, and f1 is dropped: every row goes
+		script = append(script, drop("f2"), btOp{Kind: "ReadAll", Table: tbl},
+			btOp{Kind: "DropPrefix", Table: tbl, Prefix: "b0"}, btOp{Kind: "ReadAll", Table: tbl},
+			btOp{Kind: "DropPrefix", Table: tbl, Prefix: "b"}, btOp{Kind: "ReadAll", Table: tbl})
+		for from := 0; from < 1200; from += 400 {
+			op := btOp{Kind: "MutateRows", Table: tbl}
+			for e := from; e < from+400; e++ {
+				op.Entries = append(op.Entries, entryIn{Key: fmt.Sprintf("c%04d", e), Muts: mutList{setCell("f1", "q", 1000, "b")}})
+			}
+			script = append(script, op)
+		}
+		script = append(script, drop("f1"), btOp{Kind: "ReadAll", Table: tbl}, btOp{Kind: "DropAll", Table: tbl}, btOp{Kind: "ReadAll", Table: tbl})
 		r.Probe("c14.thousands_of_rows")
 		res := runBTSeq(r, seqSpec{Engine: engine, NOps: len(script), FullEvery: 1, Restarts: true,
 			Gen: func(d *draws, m *btModel, i int) btOp { return script[i] }}, clk)
 		r.Sample = map[string]interface{}{"mode": "large-table", "engine": engine, "rows": nRows, "requests": len(res.Shapes)}
 		return
 	}
+	if cfg.Intn(4) == 3 || (r.Index >= 3 && r.Index < 12) {
+		c14Concurrent(r, cfg)
+		return
+	}
+	engine := pickEngine(r, cfg)
+	nOps := 1 + cfg.Intn(40)
+	clk := NewClock(1_700_000_000_000_000, 1_700_000_000_000_000_000)
 	spec := seqSpec{
 		Engine: engine, NOps: nOps, FullEvery: []int{1, 4, 9}[cfg.Intn(3)], Restarts: true,
 		Gen: makeC14Gen(r),
